@@ -235,6 +235,7 @@ func randomBeh(rnd *common.Rand, ns, loc int, errs bool) Beh {
 	b := Beh{NS: ns, Loc: loc,
 		Nec: bits[rnd.Intn(len(bits))], Proh: bits[rnd.Intn(len(bits))],
 		Negotiable: !rnd.Chance(1, 6), ListReq: rnd.Bool(), Mask: masks[rnd.Intn(len(masks))], Restart: rnd.Chance(1, 3)}
+	b.Layer = b.Restart && rnd.Chance(1, 3)
 	if errs {
 		b.ListErr = rnd.Chance(1, 12)
 		b.ParseErr = rnd.Chance(1, 12)
@@ -332,7 +333,7 @@ func RandomCase(rnd *common.Rand, faults bool) Case {
 	if rnd.Bool() {
 		st0 |= Received
 	}
-	cs := Case{St0: st0, WS: rnd.Chance(1, 4), Cfg: cfg, Fault: "-", Peer: randomPeer(rnd, 3+rnd.Intn(8))}
+	cs := Case{St0: st0, WS: rnd.Chance(1, 4), Tee: rnd.Chance(1, 4), Cfg: cfg, Fault: "-", Peer: randomPeer(rnd, 3+rnd.Intn(8))}
 	if faults && rnd.Chance(2, 3) {
 		cs.Fault = fmt.Sprint(rnd.Intn(10))
 		if rnd.Bool() {
